@@ -318,7 +318,7 @@ def emulator_family(env, tier="quick"):
     """Circuits crossing n x loss placement x herald layout, as recipes."""
     fam = []
     g, g2 = env.L[1], env.L2
-    for n in (2, 3, 4):
+    for n in ((2, 3, 4) if tier == "quick" else (2, 3, 4, 5)):
         uni = ("uni", n, 0, False)
         bases = {
             "U": [uni],
